@@ -22,6 +22,8 @@ CONSTANTS
   WFault = TRUE
   TimeoutCarriesOver = FALSE
   WriteErrKeepsEntry = FALSE
+  AllowFire = FALSE
+  FireRegisters = FALSE
   MaxTry = 2
 INVARIANTS TypeOK OwnTransaction FirstAcceptable ChanClosedOnlyAfterOwnDone NoNilDelivery PendingEntriesLive Capacity IdReusable CloseStopsLoop Deadline CtxPrompt ClosePrompt Schedule NoRespAtBudget
 PROPERTIES NoTxAfterAccept
